@@ -417,7 +417,7 @@ def desugar_for(toks, k, itname, where):
         ctr = itname + "_i"
         pre = "let mut %s: usize = 0; " % ctr
         pat = m.group(2).strip()
-        inner_pre = "{ let %s = %s; %s += 1; " % (m.group(1), ctr, ctr)
+        inner_pre = "{ let %s = %s; %s = vx_enum_next(%s); " % (m.group(1), ctr, ctr, ctr)
         inner_post = " }"
         note = "R5:for-desugar+enumerate-counter"
 
@@ -788,6 +788,8 @@ def generate(unit, template_text, repo_root, units_dir=None):
         clauses = []
         if opts.get("external_body"):
             g.emit("#[verifier::external_body]", kind="sig", fn=fid, tline=blk.tline, props=props)
+        if opts.get("rlimit"):
+            g.emit("#[verifier::rlimit(%s)]" % opts["rlimit"], kind="sig", fn=fid, tline=blk.tline, props=props)
         g.emit(sig_line, kind="sig", fn=fid, tline=blk.tline, src=rel, srcline=start_line, props=props)
         if sig["where"]:
             g.emit("    " + sig["where"], kind="sig", fn=fid, tline=blk.tline, props=props)
